@@ -1,6 +1,6 @@
 package main
 
-// Family "lrm": flate.Reader and bzip2.Reader against their API-level Lean
+// Family "lrm": flate.Reader, bzip2.Reader and brotli.Reader against their API-level Lean
 // models (Compress/Flate/Api.lean, Compress/Bzip2/ReaderApi.lean). Scenario
 // lines are of kind "lr" and are executed by execLife, which evaluates the
 // C09/C18/C14 clauses on the trace (single Read calls) and then hands the
@@ -18,6 +18,7 @@ import (
 	"strings"
 
 	dbzip2 "github.com/dsnet/compress/bzip2"
+	cbrotli "github.com/dsnet/compress/internal/cgo/brotli"
 )
 
 // lrmMaxStream caps the stream sizes handed to the model (the Lean inverse BWT and the bit-list
@@ -39,7 +40,12 @@ func lrmInExact(typ, src, cls string, latched bool) bool {
 	}
 	// "byte" hands Read everything that is left, as the model's raw read takes it; bytefailend hands
 	// out at most 7 bytes per Read, so inside a stored block the Go offset lags behind the model's
-	return src == "byte" && cls == "nil" && !latched
+	if src == "byte" && cls == "nil" && !latched {
+		return true
+	}
+	// brotli over the ByteReaders that hand out everything they have: the offset is the number of
+	// bytes pulled, which is what the model counts
+	return typ == "brotli" && (src == "bytes" || src == "strings" || src == "buffer") && cls == "nil" && !latched
 }
 
 // errLatchedOf reports whether the unexported `err` field of the Reader is non-nil.
@@ -50,6 +56,21 @@ func errLatchedOf(r anyReader) bool {
 	}
 	f := v.FieldByName("err")
 	return f.IsValid() && f.Kind() == reflect.Interface && !f.IsNil()
+}
+
+func lenFieldOf(r anyReader, name string) int {
+	v := reflect.ValueOf(r)
+	if v.Kind() == reflect.Ptr {
+		v = v.Elem()
+	}
+	if v.Kind() != reflect.Struct {
+		return 0
+	}
+	f := v.FieldByName(name)
+	if !f.IsValid() || f.Kind() != reflect.Slice {
+		return 0
+	}
+	return f.Len()
 }
 
 func intFieldOf(r anyReader, name string) int64 {
@@ -70,7 +91,7 @@ func intFieldOf(r anyReader, name string) int64 {
 // lrModel runs the scenario once more for the model comparison. ok=false: the scenario stays
 // oracle-only (type, source kind, ops or size outside what the model covers).
 func lrModel(o *Out, id, line, typ, srcKind string, streams []string, fail, etag int, ops string) (scn, res string, ok bool) {
-	if typ != "flate" && typ != "bzip2" || !lrmSources[srcKind] {
+	if typ != "flate" && typ != "bzip2" && typ != "brotli" || !lrmSources[srcKind] {
 		return "", "", false
 	}
 	var ds [][]byte
@@ -140,7 +161,7 @@ func lrModel(o *Out, id, line, typ, srcKind string, streams []string, fail, etag
 					got, e = rd.Read(buf)
 					return
 				}
-				// flate: Read until n bytes or an error; then ask with an empty buffer (see Drv/ReaderApi.lean)
+				// flate, brotli: Read until n bytes or an error; then ask with an empty buffer (see Drv/ReaderApi.lean)
 				for got < n && e == nil {
 					var k int
 					k, e = rd.Read(buf[got:])
@@ -184,6 +205,14 @@ func lrModel(o *Out, id, line, typ, srcKind string, streams []string, fail, etag
 				// many of the block's bytes the last step took (all that were available in the model, what
 				// prefix.Reader had buffered in the Go code): not comparable
 				o.Count("lrm-skip-close-in-stored-block")
+				return "", "", false
+			}
+			if typ == "brotli" && lenFieldOf(rd, "toRead") > 0 && !(srcKind == "bytes" || srcKind == "strings" || srcKind == "buffer" || srcKind == "byte") {
+				// Close with output pending asks br.err, and whether the error that ends the stream is latched
+				// already depends on how many bytes of an uncompressed meta-block the last raw read took (all
+				// that were available in the model, what the source or bufio.Reader handed out in the Go
+				// code): comparable only over sources that hand out everything they have
+				o.Count("lrm-skip-close-pending-short-reads")
 				return "", "", false
 			}
 			var e error
@@ -263,6 +292,25 @@ func genLrm(r *Rand, tier string, emit func(string)) {
 			add(flateMulti([][]byte{text(60), b, text(30)}, []int{1, 6, 9}[r.Intn(3)]), nil) // several blocks, one of them stored
 			add(flateMulti([][]byte{r.Bytes(30 + r.Intn(50))}, 0), nil) // stored blocks
 			add(flateMulti([][]byte{[]byte("ab"), {}, []byte("abababababababababababab")}, -2), nil)
+		} else if t == "brotli" {
+			brz := func(d []byte, q int) []byte {
+				var bb bytes.Buffer
+				zw := cbrotli.NewWriter(&bb, q)
+				zw.Write(d)
+				zw.Close()
+				return bb.Bytes()
+			}
+			a := text(150 + r.Intn(300))
+			s0 := brz(a, 2+r.Intn(10)) // compressed meta-block(s), static-dictionary references
+			add(s0, a)
+			c := append([]byte(nil), s0...)
+			c[len(c)/2] ^= 0x55
+			add(c, nil)
+			add(s0[:len(s0)*2/3], nil)
+			// WBITS = 10: an uncompressed meta-block, then a compressed one whose copy is cut by the full window
+			add(cutStream(r, 990+r.Intn(15), 1+r.Intn(20), 0, 0, 0, 1+r.Intn(900), 20+r.Intn(40)), nil)
+			add(brz(r.Bytes(60+r.Intn(60)), 0), nil) // incompressible: uncompressed meta-blocks of libbrotlienc
+			add(synthBrotli(r, 3+15*r.Intn(40)), nil) // the synthesiser: metadata / uncompressed / several meta-blocks
 		} else {
 			a := text(150 + r.Intn(300))
 			s0 := bz(a, 1+r.Intn(9))
@@ -281,7 +329,7 @@ func genLrm(r *Rand, tier string, emit func(string)) {
 		return p
 	}
 	srcs := []string{"bytes", "byte", "adv", "readonly", "bufio16", "strings", "buffer"}
-	for _, t := range []string{"flate", "bzip2"} {
+	for _, t := range []string{"flate", "bzip2", "brotli"} {
 		p := mkPool(t)
 		all := strings.Join(p.streams, ",")
 		pl := strings.Join(p.plains, ",")
@@ -368,7 +416,7 @@ func genLrm(r *Rand, tier string, emit func(string)) {
 func init() {
 	register(&Family{
 		Name: "lrm",
-		Rule: "flate.Reader and bzip2.Reader vs their API-level Lean models: a source fault at every byte position of 6 streams per type (valid, corrupt, truncated, multi-block or two streams back to back, stored blocks or the empty stream, runs) x token / Closed-coded error x 4 tails (Read after the failure, Close, Close again, Read after Close, Reset and reuse), sources failing exactly at the end of their data; all op sequences of a fixed depth over {Read 0/1/7/all, Close, ReadAll, Reset onto any of the 6 streams}; random longer sequences with and without faults; through bytes.Reader / strings.Reader / bytes.Buffer / scripted BufferedReader / ReadByte-only / Read-only / bufio16 sources. Compared per call: bytes returned, error class, InputOffset (where the model's abstraction determines it: at io.EOF, for ReadByte-only sources after calls that did not fail, for bzip2 over buffered sources always), OutputOffset. The oracle clauses of family life (kind lr) are evaluated on the same scenarios. Streams up to 6000 bytes. Distinct by scenario",
+		Rule: "flate.Reader, bzip2.Reader and brotli.Reader (pool: libbrotlienc output valid / corrupt / truncated, a WBITS=10 stream with an uncompressed meta-block and a copy cut by the full window, incompressible data, a synthesised stream; Read as for flate; InputOffset also over bytes.Reader / strings.Reader / bytes.Buffer after calls that did not fail) vs their API-level Lean models: a source fault at every byte position of 6 streams per type (valid, corrupt, truncated, multi-block or two streams back to back, stored blocks or the empty stream, runs) x token / Closed-coded error x 4 tails (Read after the failure, Close, Close again, Read after Close, Reset and reuse), sources failing exactly at the end of their data; all op sequences of a fixed depth over {Read 0/1/7/all, Close, ReadAll, Reset onto any of the 6 streams}; random longer sequences with and without faults; through bytes.Reader / strings.Reader / bytes.Buffer / scripted BufferedReader / ReadByte-only / Read-only / bufio16 sources. Compared per call: bytes returned, error class, InputOffset (where the model's abstraction determines it: at io.EOF, for ReadByte-only sources after calls that did not fail, for bzip2 over buffered sources always), OutputOffset. The oracle clauses of family life (kind lr) are evaluated on the same scenarios. Streams up to 6000 bytes. Distinct by scenario",
 		Gen:  genLrm,
 		Exec: execLife,
 	})
